@@ -108,3 +108,12 @@ prop("C13",
                   "the request engine (retry, lock) is the contract proved in C06; here it is a stand-in that builds the request once",
                   "commands are issued while connected and answering pings (the gates are C06)"],
      explanation="switch/pump/heater/watercare command contracts over the whole device table and every current state; SPACK/SETWC bytes with symbolic pack type, versions, position, word and the real sequence counter inlined; accessor -> spa -> echo -> read-back per command item shape")
+
+prop("C15",
+     level="proof",
+     bounded=["reply_listed_once_and_filter_honoured: 0..2 spas already listed"],
+     assumptions=["reply timing is the environment: the reply handler may run any number of times at each suspension point of discover (havoc of the result list subject to its invariant)",
+                  "asyncio.sleep(d) returns within d + 0.05 s (ASSUMED); 'within the discovery timeout' is proved modulo one polling interval (0.1 s)",
+                  "spa identifiers are 'SPA..' style (not '1', not starting with IOS/AND): hello decode precondition, see C04",
+                  "task cancellation is requested (Task.cancel) -- that a cancelled task terminates is C10"],
+     explanation="per-reply contract and invariant of the discovery callback; discover loop invariant under a ghost clock: exit conditions, time bound, endpoint closed, helper tasks cancelled")
